@@ -174,32 +174,32 @@ func runC18(w *World, r *Report) {
 	_ = adminOnly
 	// reviewed writes: struct.field -> reason (confinement / initialisation / per-request)
 	reviewed := map[string]string{
-		"queueProcessor.inDrainMode":            "written once by the processing goroutine itself in drainQueue; readers run on that same goroutine (checkIfAllowed/prepareQuota are called from the processing loop)",
-		"memoryState.clock":                     "WithClock is called while the quota object is constructed, before it is shared",
-		"StreamsData.stream":                    "publication site of the engine (C08.R4 / C18.R4)",
-		"MapVacuum.active":                      "set once to true under entriesMutex before the goroutine that reads it is started (C11.R1)",
-		"Stream.supportedFilters":               "written during Stream.Initialize on the not-yet-published engine",
-		"Stream.loadedConfig":                   "written during Stream.Initialize on the not-yet-published engine",
-		"Stream.lunarHub":                       "WithHub is called on the not-yet-published engine",
-		"Stream.validationMode":                 "builder option on the not-yet-published engine",
-		"Stream.validationPath":                 "builder option on the not-yet-published engine",
-		"Stream.strictMode":                     "builder option on the not-yet-published engine",
-		"HandlingDataManager.flowValidator":     "admin path, serialised by handlingLock / startup",
-		"HandlingDataManager.metricManager":     "startup only",
-		"HandlingDataManager.isStreamsEnabled":  "startup only",
-		"HandlingDataManager.shutdown":          "startup only",
+		"queueProcessor.inDrainMode":                "written once by the processing goroutine itself in drainQueue; readers run on that same goroutine (checkIfAllowed/prepareQuota are called from the processing loop)",
+		"memoryState.clock":                         "WithClock is called while the quota object is constructed, before it is shared",
+		"StreamsData.stream":                        "publication site of the engine (C08.R4 / C18.R4)",
+		"MapVacuum.active":                          "set once to true under entriesMutex before the goroutine that reads it is started (C11.R1)",
+		"Stream.supportedFilters":                   "written during Stream.Initialize on the not-yet-published engine",
+		"Stream.loadedConfig":                       "written during Stream.Initialize on the not-yet-published engine",
+		"Stream.lunarHub":                           "WithHub is called on the not-yet-published engine",
+		"Stream.validationMode":                     "builder option on the not-yet-published engine",
+		"Stream.validationPath":                     "builder option on the not-yet-published engine",
+		"Stream.strictMode":                         "builder option on the not-yet-published engine",
+		"HandlingDataManager.flowValidator":         "admin path, serialised by handlingLock / startup",
+		"HandlingDataManager.metricManager":         "startup only",
+		"HandlingDataManager.isStreamsEnabled":      "startup only",
+		"HandlingDataManager.shutdown":              "startup only",
 		"HandlingDataManager.areMetricsInitialized": "startup only",
-		"HandlingDataManager.doctor":            "startup only",
-		"HandlingDataManager.diagnosisWatcher":  "startup only",
-		"HandlingDataManager.legacyMetricManager": "startup only",
-		"HandlingDataManager.policiesServices":  "startup only",
-		"HandlingDataManager.diagnosisWorker":   "startup only",
-		"HandlingDataManager.configBuildResult": "startup only",
-		"HandlingDataManager.lunarHub":          "startup only",
+		"HandlingDataManager.doctor":                "startup only",
+		"HandlingDataManager.diagnosisWatcher":      "startup only",
+		"HandlingDataManager.legacyMetricManager":   "startup only",
+		"HandlingDataManager.policiesServices":      "startup only",
+		"HandlingDataManager.diagnosisWorker":       "startup only",
+		"HandlingDataManager.configBuildResult":     "startup only",
+		"HandlingDataManager.lunarHub":              "startup only",
 	}
 	type finding struct {
 		key, detail string
-		pos        token.Pos
+		pos         token.Pos
 	}
 	var bad []finding
 	nStores := 0
